@@ -457,7 +457,15 @@ pub fn real_emissions(want: &[&str], tier: Tier, deadline: Instant) -> Part {
                         ops.push(Op::Kv { key: "mk".into(), value: "mv".into(), version: 1 + k as u64, status: (k % 3) as u8 });
                     }
                 }
-                node.cc.verif_process_message(real::build_real(&Msg::Ack { ops }).unwrap());
+                match real::build_real(&Msg::Ack { ops }) {
+                    Ok(m) => {
+                        node.cc.verif_process_message(m);
+                    }
+                    Err(e) => {
+                        v.push(Viol { what: format!("the real decoder rejects a well-formed ACK that fills the node's copies (members of every address class, two pairs of members sharing an address): {e}"), sig: "decode-disagreement".into(), replay: json!({"engine":"wire","direction":"independent-encoder->real-decoder","family":"real-emissions set-up"}) });
+                        return (t, v);
+                    }
+                }
             }
             let mut shape = vec![];
             for (i, (kl, vl, st)) in kvs.iter().enumerate() {
